@@ -207,6 +207,7 @@ def replay(case, conc, cand=None):
 
 
 META = {
+    "glue": ['groupby_lib/groupby/core.py::_apply_gb_func_across_chunked_group_keys', 'groupby_lib/groupby/core.py::_apply_gb_reduction', 'groupby_lib/groupby/core.py::_find_first_chunk_in_slice', 'groupby_lib/groupby/core.py::_group_sort_indexer', 'groupby_lib/groupby/core.py::_max_threads_for_numba', 'groupby_lib/groupby/core.py::_resolve_mask_argument_into_chunks', 'groupby_lib/groupby/core.py::_unify_for_positional_mask', 'groupby_lib/groupby/core.py::_unify_group_key_chunks', 'groupby_lib/groupby/core.py::count_ikey', 'groupby_lib/util.py::array_split_with_chunk_handling'],
     "bounds": {"quick": {"N": 4, "G": 2, "key_chunks": 2}, "thorough": {"N": 5, "G": 2, "key_chunks": "<= 3", "extra": "N=4,G=3 with 2 chunks"}},
     "enumerated": ["reduction", "key representation (contiguous, chunked with pointer tables, chunked after unification) and chunk layout", "mask present or not"],
     "symbolic": ["group codes / chunk-local codes and pointer tables", "values and null flags", "mask bits"],
